@@ -14,6 +14,7 @@ static GLOBAL: alloc::Counting = alloc::Counting;
 mod c01;
 mod c02;
 mod c03;
+mod c03fs;
 mod c04;
 mod c05;
 mod c06;
